@@ -69,9 +69,13 @@ pub fn compare_names(name1: &str, name2: &str) -> Ordering {
             // units, along with a list of weird exceptions and corner cases.  But
             // hopefully this is good enough for 99+% of the time.
             Ordering::Equal => {
-                let n1 = name1.chars().map(cfb_uppercase_char);
-                let n2 = name2.chars().map(cfb_uppercase_char);
-                n1.cmp(n2)
+                // MS-CFB section 2.6.4 compares the upper-cased names one
+                // UTF-16 code unit at a time, which orders characters from
+                // U+E000 to U+FFFF after surrogate pairs, unlike a
+                // comparison of Unicode scalar values.
+                let n1: String = name1.chars().map(cfb_uppercase_char).collect();
+                let n2: String = name2.chars().map(cfb_uppercase_char).collect();
+                n1.encode_utf16().cmp(n2.encode_utf16())
             }
             other => other,
         }
